@@ -3,7 +3,8 @@
    SM/Events.v true of (x1, tr, y): setup pays the matrix entry and mounts the tool (C09), no other event changes a tool
    (C09), processing is planned for exactly the drawn duration on the configured machine (C02), the end of processing
    samples the outages as configured and blocks for the longest one (C02/C10), the release stamps the end and appends the
-   job to the post-buffer (C02/C08/C10), AGV release (C10), stores change by remove-one/append-one only (C08), the clock
+   job to the post-buffer (C02/C08/C10), a delivery appends the job at the back of the route's destination, empties the AGV, drops the
+   claim and blocks the AGV for its longest sampled outage (C07/C10), AGV release (C10), stores change by remove-one/append-one only (C08), the clock
    does not move inside a transition. *)
 From Coq Require Import List ZArith Bool Arith Lia.
 From JSL Require Import Base.Res Base.ListX SM.Types SM.Util SM.Handler SM.Step SM.Middleware SM.Inv SM.Events
@@ -19,7 +20,7 @@ Hypothesis Hnn : inst_nonneg_b i = true.
 
 Definition events_ok (x : state) (tr : transition) (y : state) : bool :=
   ev_setup i x tr y && ev_tool_frame x tr y && ev_work i x tr y && ev_machine_outage i x tr y
-  && ev_machine_release x tr y && ev_transport_release x tr y && ev_stores x tr y && ev_clock x tr y.
+  && ev_machine_release x tr y && ev_deliver i x tr y && ev_transport_release x tr y && ev_stores x tr y && ev_clock x tr y.
 
 Fixpoint chain_events (x : state) (lg : mlog) : Prop :=
   match lg with
@@ -32,7 +33,7 @@ Theorem apply_events_ok x tr y :
 Proof.
   intros N F A H. unfold events_ok.
   rewrite (apply_ev_setup sigma i Hnn _ _ _ N F H), (apply_ev_tool_frame sigma i _ _ _ H), (apply_ev_work sigma i Hnn _ _ _ N F H),
-    (apply_ev_machine_outage sigma i Hnn _ _ _ N F H), (apply_ev_machine_release sigma i _ _ _ N F H),
+    (apply_ev_machine_outage sigma i Hnn _ _ _ N F H), (apply_ev_machine_release sigma i _ _ _ N F H), (apply_ev_deliver sigma i Hnn _ _ _ N A H),
     (apply_ev_transport_release sigma i _ _ _ N A H), (apply_ev_stores sigma i _ _ _ H), (apply_ev_clock sigma i _ _ _ H).
   reflexivity.
 Qed.
